@@ -1,1 +1,217 @@
-/-! # C13 — property theorems (not built yet) -/
+import PysphVerif.Lemmas.GaussJordanDet
+import PysphVerif.Lemmas.LinalgHelpers
+/-!
+# C13 — the small dense linear-algebra helpers solve what they are given
+
+Property theorems only (helper lemmas live in `Lemmas/GaussJordan.lean`).  They are
+about `Model/GaussJordan.lean`, which transcribes `pysph/sph/wc/linalg.py` on flat
+row-major arrays and is tied to the code (Python and transpiled) by bit-exact
+differential execution.  `gjSolve` is the REPAIRED `gj_solve` (partial pivoting with a real
+row exchange, proposed_fixes/C13-gj-pivot.diff); `gjSolveOrig` is the pinned code.
+
+All statements hold for every size `n`, every number `nb` of right-hand sides, every
+flat array that is large enough, over every linearly ordered field `K`, with the literal
+`1e-12` an arbitrary `tol > 0`.  `get2 nt m i j` is `m[nt*i + j]`.
+
+The eigen-decomposition of `linalg3.pyx` is monitored by test (harness), not proved.
+-/
+set_option linter.unusedSectionVars false
+namespace PysphVerif.C13
+open PysphVerif.GaussJordan
+
+variable {K : Type} [Field K] [LinearOrder K] [IsStrictOrderedRing K]
+
+/-! ## soundness of `gj_solve` -/
+
+/-- `gj_solve` returned 0 ⇒ the returned columns solve the system that was passed in:
+`A · x_c = b_c` for every right-hand side `c`, exactly (over a field) — provided the last
+pivot of the triangular form is non-zero (the code does not test it against `tol`; when it
+is exactly zero and the right-hand side is below `tol`, the code silently skips the row and
+still returns 0, so this hypothesis cannot be dropped; `gj_sound` below discharges it from
+`det A ≠ 0`). -/
+theorem gj_sound_lastpivot {n nb : Nat} (tol : K) (htol : 0 < tol) (m res : Array K)
+    (hsz : n*(n+nb) ≤ m.size) (hres : n*nb ≤ res.size)
+    (hret : (gjSolve tol m n nb res).singular = false)
+    (hlast : LastPivotNonzero tol m n nb) :
+    ∀ c, c < nb → ∀ i, i < n →
+      ∑ j ∈ Finset.range n,
+        get2 (n+nb) m i j * rd (gjSolve tol m n nb res).result (nb*j + c) =
+      get2 (n+nb) m i (n + c) :=
+  gjSolve_sound_core tol htol m res hsz hres hret hlast
+
+/-- the silent skip is real: a singular 1×1 system with a right-hand side below `tol`
+returns 0 with a "solution" that does not solve it (so `gj_sound_lastpivot` needs its hypothesis) -/
+example : (gjSolve (1/1000 : ℚ) #[0, 1/2000] 1 1 #[7]).singular = false ∧
+    (0 : ℚ) * rd (gjSolve (1/1000 : ℚ) #[0, 1/2000] 1 1 #[7]).result 0 ≠ 1/2000 := by
+  decide +kernel
+
+/-- **`gj_sound`.**  For every `n`, `nb`: if the coefficient block `A` of the augmented
+matrix has `det A ≠ 0` (Mathlib's determinant) and `gj_solve` returns 0, then the returned
+columns satisfy `A · x_c = b_c` exactly, for every right-hand side `c`. -/
+theorem gj_sound {n nb : Nat} (tol : K) (htol : 0 < tol) (m res : Array K)
+    (hsz : n*(n+nb) ≤ m.size) (hres : n*nb ≤ res.size)
+    (hdet : (toMat n (get2 (n+nb) m)).det ≠ 0)
+    (hret : (gjSolve tol m n nb res).singular = false) :
+    ∀ c, c < nb → ∀ i, i < n →
+      ∑ j ∈ Finset.range n,
+        get2 (n+nb) m i j * rd (gjSolve tol m n nb res).result (nb*j + c) =
+      get2 (n+nb) m i (n + c) :=
+  gjSolve_sound_core tol htol m res hsz hres hret (lastPivotNonzero_of_det tol htol m hsz hdet)
+
+/-- the same in Mathlib's matrix language: `A *ᵥ x_c = b_c` -/
+theorem gj_sound_mulVec {n nb : Nat} (tol : K) (htol : 0 < tol) (m res : Array K)
+    (hsz : n*(n+nb) ≤ m.size) (hres : n*nb ≤ res.size)
+    (hdet : (toMat n (get2 (n+nb) m)).det ≠ 0)
+    (hret : (gjSolve tol m n nb res).singular = false) (c : Nat) (hc : c < nb) :
+    Matrix.mulVec (toMat n (get2 (n+nb) m))
+      (fun j : Fin n => rd (gjSolve tol m n nb res).result (nb*j + c)) =
+    fun i : Fin n => get2 (n+nb) m i (n + c) := by
+  funext i
+  have h := gj_sound tol htol m res hsz hres hdet hret c hc i i.2
+  rw [← h]
+  simp only [Matrix.mulVec, dotProduct, toMat]
+  exact (Finset.sum_range (fun j => get2 (n+nb) m i j *
+    rd (gjSolve tol m n nb res).result (nb*j + c))).symm
+
+/-! ## completeness: when does `gj_solve` report a singular matrix -/
+
+/-- `gj_solve` returns non-zero only if, after row operations that preserve the solution
+set, a column of the reduced matrix has every candidate pivot (diagonal and below) smaller
+than `tol` in absolute value, or the triangular form has an exactly zero last pivot. -/
+theorem gj_nonzero_only_if_tiny_or_zero_pivot {n nb : Nat} (tol : K) (htol : 0 < tol)
+    (m res : Array K) (hsz : n*(n+nb) ≤ m.size)
+    (hret : (gjSolve tol m n nb res).singular = true) :
+    TinyColumn n (n+nb) tol m ∨
+    ∃ m1, forward tol n nb m = some m1 ∧ FwdInv n (n+nb) tol m m1 n ∧ 0 < n ∧
+      get2 (n+nb) m1 (n-1) (n-1) = 0 :=
+  gjSolve_singular_cases tol htol m res hsz hret
+
+/-- **`gj_nonzero_only_if_singular_or_tiny`.**  `gj_solve` returns non-zero only if
+`det A = 0`, or a column of the row-reduced matrix has every candidate pivot below `tol`. -/
+theorem gj_nonzero_only_if_singular_or_tiny {n nb : Nat} (tol : K) (htol : 0 < tol)
+    (m res : Array K) (hsz : n*(n+nb) ≤ m.size)
+    (hret : (gjSolve tol m n nb res).singular = true) :
+    (toMat n (get2 (n+nb) m)).det = 0 ∨ TinyColumn n (n+nb) tol m := by
+  rcases gjSolve_singular_cases tol htol m res hsz hret with h | ⟨m1, hf, _, hn, h0⟩
+  · exact Or.inr h
+  · left
+    by_contra hdet
+    exact forward_pivots_ne_zero tol htol m m1 hsz hf hdet (n-1) (by omega) h0
+
+/-- **`gj_complete`.**  A system with `det A ≠ 0` in which no column of the reduced matrix
+is entirely below `tol` is solved: `gj_solve` returns 0 (and by `gj_sound` the result is
+the solution). -/
+theorem gj_complete {n nb : Nat} (tol : K) (htol : 0 < tol) (m res : Array K)
+    (hsz : n*(n+nb) ≤ m.size) (hdet : (toMat n (get2 (n+nb) m)).det ≠ 0)
+    (htiny : ¬ TinyColumn n (n+nb) tol m) :
+    (gjSolve tol m n nb res).singular = false := by
+  cases h : (gjSolve tol m n nb res).singular with
+  | false => rfl
+  | true =>
+    rcases gj_nonzero_only_if_singular_or_tiny tol htol m res hsz h with h1 | h1
+    · exact absurd h1 hdet
+    · exact absurd h1 htiny
+
+/-- partial pivoting: the entry brought to the pivot position is the largest (in absolute
+value) of its column among the rows not yet used -/
+theorem gj_pivot_is_column_max {n nt : Nat} (m : Array K) (k : Nat) (hsz : n*nt ≤ m.size)
+    (hk : k < n) (hn : n ≤ nt) (i : Nat) (hi1 : k ≤ i) (hi2 : i < n) :
+    |get2 nt m i k| ≤ |get2 nt (swapRows nt nt k (pivotRow m nt n k) m) k k| :=
+  pivot_is_column_max m k hsz hk hn i hi1 hi2
+
+/-- the forward phase reduces the system to upper-triangular form by elementary row
+operations (so the solution set is kept), every pivot except possibly the last being at
+least `tol` in absolute value -/
+theorem gj_forward_triangular {n nb : Nat} (tol : K) (htol : 0 < tol) (m m1 : Array K)
+    (hsz : n*(n+nb) ≤ m.size) (hf : forward tol n nb m = some m1) :
+    RowOps n (n+nb) (get2 (n+nb) m) (get2 (n+nb) m1) ∧
+    (∀ i j, i < n → j < i → get2 (n+nb) m1 i j = 0) ∧
+    (∀ k, k + 1 < n → tol ≤ |get2 (n+nb) m1 k k|) := by
+  have h := forward_spec tol htol m hsz
+  rw [hf] at h
+  exact ⟨h.ops, fun i j hi hji => h.lz i j hi (by omega) hji,
+    fun k hk => not_lt.mp (h.piv k (by omega) hk)⟩
+
+/-- elementary row operations keep solutions: whatever solves the reduced system solves
+the original one (`row_ops_preserve_solutions`) -/
+theorem row_ops_preserve_solutions {n nt : Nat} (hn : n ≤ nt) {M M' : Nat → Nat → K}
+    (h : RowOps n nt M M') (x : Nat → K) (c : Nat) (hc : c < nt) (hx : Sol n M' x c) :
+    Sol n M x c :=
+  h.sol hn x c hc hx
+
+/-! ## the helpers agree with their mathematical definitions -/
+
+/-- row-major indexing `n*i + j` is injective for `j < n` (`flat_index`) -/
+theorem flat_index_injective {nt i j i' j' : Nat} (hj : j < nt) (hj' : j' < nt)
+    (h : nt*i + j = nt*i' + j') : i = i' ∧ j = j' :=
+  flat_inj hj hj' h
+
+/-- `identity(a, n)` writes Mathlib's identity matrix into the first `n×n` cells -/
+theorem identity_eq_one (a : Array K) (n : Nat) (hsz : n*n ≤ a.size) :
+    sqMat n (identity a n) = 1 ∧ (identity a n).size = a.size :=
+  ⟨identity_eq_one' a n hsz, (identity_spec a n hsz).1⟩
+
+/-- `mat_mult(a, b, n, result)` is Mathlib's matrix product -/
+theorem mat_mult_eq_mul (a b r : Array K) (n : Nat) (hsz : n*n ≤ r.size) :
+    sqMat n (matMult a b n r) = sqMat n a * sqMat n b :=
+  matMult_eq_mul' a b r n hsz
+
+/-- `mat_vec_mult(a, b, n, result)` is Mathlib's matrix-vector product -/
+theorem mat_vec_mult_eq_mulVec (a b r : Array K) (n : Nat) (hsz : n ≤ r.size) :
+    vecOf n (matVecMult a b n r) = Matrix.mulVec (sqMat n a) (vecOf n b) :=
+  matVecMult_eq_mulVec' a b r n hsz
+
+/-- `dot(a, b, n)` is Mathlib's dot product of the first `n` entries -/
+theorem dot_eq_dotProduct (a b : Array K) (n : Nat) :
+    dot a b n = dotProduct (vecOf n a) (vecOf n b) :=
+  dot_eq_dotProduct' a b n
+
+/-- `augmented_matrix(A, b, n, na, nmax, result)` lays out `[A[:n,:n] | b[:n,:na]]` with row
+length `n+na` (reading `A` with row length `nmax`, `b` with row length `na`) and leaves
+every other cell of `result` alone -/
+theorem augmented_is_block_row (A b r : Array K) (n na nmax : Nat) (hsz : n*(n+na) ≤ r.size) :
+    (augmentedMatrix A b n na nmax r).size = r.size ∧
+    ∀ i j, j < n + na → get2 (n+na) (augmentedMatrix A b n na nmax r) i j =
+      if i < n then (if j < n then get2 nmax A i j else get2 na b i (j - n))
+      else get2 (n+na) r i j :=
+  augmentedMatrix_spec A b r n na nmax hsz
+
+/-- helpers, non-vacuity: a 2×2 product and an augmented matrix taken from a 3×3 array -/
+example : matMult (#[1, 2, 3, 4] : Array ℚ) #[0, 1, 1, 0] 2 #[9, 9, 9, 9] = #[2, 1, 4, 3] ∧
+    augmentedMatrix (#[1, 2, 3, 4, 5, 6, 7, 8, 9] : Array ℚ) #[10, 20] 2 1 3
+      #[0, 0, 0, 0, 0, 0, 0] = #[1, 2, 10, 4, 5, 20, 0] := by
+  decide +kernel
+
+/-! ## F5: the pinned code never exchanges rows -/
+
+/-- for every input, the "pivoting" pre-pass of the pinned `gj_solve` leaves the matrix
+unchanged: the pinned algorithm is plain elimination without row exchanges -/
+theorem orig_prepass_is_identity (n nt : Nat) (m : Array K) : prepass n nt m = m :=
+  prepass_eq n nt m
+
+/-- counterexample for the pinned code: the permutation matrix `[[0,1],[1,0]]` is
+non-singular, the pinned algorithm reports it singular, the repaired one solves it -/
+theorem orig_counterexample :
+    (gjSolveOrig (1/1000000000000 : ℚ) #[0, 1, 1, 1, 0, 2] 2 1 #[0, 0]).singular = true ∧
+    (gjSolve (1/1000000000000 : ℚ) #[0, 1, 1, 1, 0, 2] 2 1 #[0, 0]).singular = false ∧
+    (gjSolve (1/1000000000000 : ℚ) #[0, 1, 1, 1, 0, 2] 2 1 #[0, 0]).result = #[2, 1] := by
+  decide +kernel
+
+/-! ## non-vacuity -/
+
+/-- a 3×3 system with a zero leading pivot and two right-hand sides: the hypotheses of
+`gj_sound_lastpivot` are met (returns 0) and the result is the exact solution -/
+example :
+    let m : Array ℚ := #[0, 2, 1, 1, 0,  1, 1, 0, 0, 1,  3, 0, 1, 2, 2]
+    (gjSolve (1/1000000000000 : ℚ) m 3 2 #[0, 0, 0, 0, 0, 0]).singular = false ∧
+    (forward (1/1000000000000 : ℚ) 3 2 m).isSome = true ∧
+    (gjSolve (1/1000000000000 : ℚ) m 3 2 #[0, 0, 0, 0, 0, 0]).result
+      = #[1/5, 4/5, -1/5, 1/5, 7/5, -2/5] := by
+  decide +kernel
+
+/-- a singular system is reported (`gj_nonzero_only_if_tiny_or_zero_pivot` is not vacuous) -/
+example : (gjSolve (1/1000000000000 : ℚ) #[1, 1, 0, 1,  1, 1, 0, 1,  1, 1, 1, 1] 3 1
+    #[0, 0, 0]).singular = true := by
+  decide +kernel
+
+end PysphVerif.C13
